@@ -48,6 +48,13 @@ func (vc *FnVC) script(ob *Obligation, caseIdx int, extra string, getValues []st
 			if it.Ob.Canary || it.Ob.Cover {
 				continue
 			}
+			if it.Ob.Finding {
+				// a known finding is assumed only outside its excuse (never assume a known-false fact)
+				if it.Ob.Excuse != "" {
+					fmt.Fprintf(&b, "(assert (=> (not %s) %s)) ; %s (known finding)\n", it.Ob.Excuse, it.Ob.Goal, it.Ob.Name)
+				}
+				continue
+			}
 			fmt.Fprintf(&b, "(assert %s) ; %s\n", it.Ob.Goal, it.Ob.Name)
 			continue
 		}
@@ -133,7 +140,7 @@ func race(script string, timeoutS int, all bool) (win solverAnswer, answers []so
 		go func() { ch <- runSolver(ctx, solvers[i], script, timeoutS) }()
 	}
 	start(0)
-	var head <-chan time.Time = time.After(1200 * time.Millisecond)
+	var head <-chan time.Time = time.After(2500 * time.Millisecond)
 	if all {
 		start(1)
 		start(2)
@@ -204,6 +211,9 @@ func (g *Global) solveOne(vc *FnVC, ob *Obligation, timeoutS int, thorough bool)
 	if expectSat || len(vc.Cases) == 0 || ob.Kind == "split" || ob.Kind == "vacuity" {
 		script := vc.script(ob, -1, "", nil)
 		keep(script, -1)
+		if ob.Cover && timeoutS > 6 {
+			timeoutS = 6 // covers are best effort: models of quantified contexts are often not found
+		}
 		win, agree, detail := decide(script, timeoutS, thorough && !expectSat)
 		r.Status, r.Solver, r.Ms, r.Output, r.Agree, r.Detail = win.status, win.solver, win.ms, win.out, agree, detail
 	} else {
@@ -249,7 +259,7 @@ func (g *Global) solveAll(vcs []*FnVC, timeoutS int, thorough bool) []*Result {
 		}
 	}
 	results := make([]*Result, len(jobs))
-	par := 12
+	par := 10
 	if thorough {
 		par = 5
 	}
